@@ -6,6 +6,10 @@ P: coq/theories/Props/C03_bvm.v over Bvm/Model.v + Bvm/XModel.v (executable mode
    accepted by `verify` never faults in the model VM - on any input, with any arithmetic, for any number of samples and any
    fuel; dsp leaves exactly its declared number of output words; the state cursor is back at 0.  With closures (`xverify`)
    the same holds except for faults of the dynamic class (stale handles, ill-fitting indirect callees, ...; partial).
+   Since builder bvm3 `xverify` also accepts AllocArray / GetArrayElem / SetArrayElem, the array builtins (len, split_head,
+   split_tail, prepend, append, `$arityN`) and `_mimium_schedule_at`; the element width GetArrayElem / SetArrayElem move is a
+   run-time fact: the dump carries an untrusted annotation (elem_width_hints), the instrumented semantics checks it
+   (DynElemWidth), and a DynElemWidth stop on compiler output is reported.
 C: harness/lang/src/bin/bc_dump.rs compiles every program with the REAL compiler, dumps the complete `Program` the real
    VM executes (upindexes and the type table included) and runs it on the real VM; ocaml/bvm_drv.ml runs the extracted
    model on the SAME dumped bytecode: outputs (bit patterns), flat state words, cursor, closures.len() and heap.len() must
@@ -46,6 +50,8 @@ def ext_code(name):
     """(code, arity) of an entry of ext_fun_table for the model driver"""
     if name in EXT_CODES:
         return EXT_CODES[name]
+    if name == "_mimium_schedule_at":
+        return (199, 0)
     if name in ARRAY_EXT:
         return (200 + ARRAY_EXT[name], 0)
     m = re.match(r"(split_head|split_tail|prepend|append)\$arity(\d+)$", name)
@@ -76,7 +82,7 @@ SUPPORTED = {"Move", "MoveConst", "MoveImmF", "MoveRange", "Call", "CallExtFun",
              "AllocArray", "GetArrayElem", "SetArrayElem"}
 # the instructions the verifier accepts: Bvm/XVerify.v covers every instruction the model covers; OLD_SUBSET is what the
 # first verifier (Bvm/Verify.v) covered (statistics only)
-VERIFIER_SUPPORTED = SUPPORTED - {"AllocArray", "GetArrayElem", "SetArrayElem"}
+VERIFIER_SUPPORTED = SUPPORTED
 OLD_SUBSET = SUPPORTED - {"Closure", "Close", "CallCls", "MakeHeapClosure", "CloseHeapClosure", "CloneHeap", "CallIndirect",
                                   "GetUpValue", "SetUpValue", "BoxAlloc", "BoxLoad", "BoxClone", "BoxRelease", "BoxStore"}
 
@@ -146,6 +152,29 @@ def infer_pwords(prog):
     return [best.get(i, f["nparam"]) for i, f in enumerate(funs)]
 
 
+def elem_width_hints(f):
+    """the untrusted annotation f_ew of Bvm/Model.v: [(pc, element width in words)] for the GetArrayElem / SetArrayElem
+    instructions of one dumped function.  GetArrayElem: the widths of the MIR GetArrayElem instructions in order (`gaw` of the
+    dump: the type the compiler had in hand when it emitted the instruction); SetArrayElem (emitted only while an array
+    literal is filled): the element size of the closest preceding AllocArray into the same register.  A missing or wrong
+    hint cannot make the verifier accept unsafe bytecode: the instrumented semantics checks it (DynElemWidth)."""
+    out = []
+    gaw = f.get("gaw")
+    gets = [pc for pc, ins in enumerate(f["code"]) if ins[0] == "GetArrayElem"]
+    if gaw is not None and len(gaw) == len(gets):
+        out += list(zip(gets, gaw))
+    else:
+        out += [(pc, 1) for pc in gets]         # no annotation in the dump: guess one word (checked at run time like any hint)
+    for pc, ins in enumerate(f["code"]):
+        if ins[0] == "SetArrayElem":
+            for q in range(pc - 1, -1, -1):
+                c = f["code"][q]
+                if c[0] == "AllocArray" and c[1] == ins[1]:
+                    out.append((pc, c[3]))
+                    break
+    return sorted(out)
+
+
 def instr_tokens(ins):
     op = ins[0]
     if op not in MODEL_INSTRS or len(ins) - 1 != MODEL_INSTRS[op] or not all(isinstance(a, int) for a in ins[1:]):
@@ -175,6 +204,10 @@ def prog_tokens(prog):
         toks.append(str(len(ups)))
         for u in ups:
             toks += [str(u[0]), str(u[1]), "1" if u[2] else "0"]
+        ew = elem_width_hints(f)
+        toks.append(str(len(ew)))
+        for pc, w in ew:
+            toks += [str(pc), str(w)]
     toks.append(str(sum(prog["globals"])))
     toks.append(str(len(prog["ext"])))
     for name in prog["ext"]:
@@ -263,6 +296,8 @@ def parse_outcome(s):
         return {"kind": "unsupported", "what": t[1]}
     if t[0] == "T":
         return {"kind": "fuel"}
+    if t[0] == "D":
+        return {"kind": "due"}
     return {"kind": "?", "what": s}
 
 
@@ -373,6 +408,9 @@ def compare(dump, ans):
             return ("skip", "dsp:" + m["what"])
         if m["kind"] == "fuel":
             return ("skip", "dsp:fuel")
+        if m["kind"] == "due":
+            # a task queued by _mimium_schedule_at is due: the scheduler plugin runs it before dsp, the model has no task queue
+            return ("skip", "dsp:task-due@%d" % t)
         if "panic" in v:
             if m["kind"] == "fault":
                 return None
@@ -666,6 +704,24 @@ def unit_operand_class(prog, detail):
     return None
 
 
+KNOWN_CLASS_CTOR = "bvm-constructor-pattern-on-number"
+
+
+def ctor_pattern_class(prog, detail):
+    """KNOWN_CLASS_CTOR when the first failing check is a MoveRange of registers onto themselves (how bytecodegen binds the
+    payload of a constructor pattern in place) right behind the JmpTable dispatch of a match, reading registers nothing has
+    written: the scrutinee has no payload words because it is a NUMBER - the type checker accepted a constructor pattern
+    on it (C03/T8, match-patterns-not-checked-against-scrutinee:  match (now, 2.0) { (B((a, b, c)), 1) => a, _ => 5.0 })."""
+    site = rejection_site(prog, detail)
+    if not site or not site[2] or site[2][0] != "MoveRange" or site[2][1] != site[2][2]:
+        return None
+    fi, pc, ins = site
+    code = prog["funs"][fi]["code"]
+    if not any(c[0] == "JmpTable" for c in code[max(0, pc - 4):pc]):
+        return None
+    return KNOWN_CLASS_CTOR
+
+
 def rejection_class(prog, detail):
     """KNOWN_CLASS when the first failing check is a Call that passes fewer argument words than the callee has
     parameter words (the callee then reads above what the caller prepared); else None"""
@@ -822,7 +878,9 @@ def run_part(ck, quick=True):
            "with_fuel_bound": 0, "without_fuel_bound": 0, "max_fuel_bound": 0, "rejected_known_class_unit_operand": 0,
            "dump_garbled_in_shared_process": 0, "closure_programs": 0, "closure_programs_agree": 0,
            "inside_model_shipped": 0, "outside_model": 0,
-           "outside_model_by": {}, "accepted_closure_programs": 0, "accepted_dynamic_stop": {}}
+           "outside_model_by": {}, "accepted_closure_programs": 0, "accepted_dynamic_stop": {},
+           "sched_agrees_until_task_due": 0, "not_compared_by": {}, "array_programs": 0, "accepted_array_programs": 0,
+           "sched_programs": 0, "accepted_sched_programs": 0, "rejected_known_class_ctor_pattern": 0}
     cov["programs_by_kind"] = {}
     for rq in reqs:
         kd = rq["kind"].split(":")[0]
@@ -907,6 +965,11 @@ def run_part(ck, quick=True):
         c = compare(r, a)
         closure_prog = bool(used_instrs(prog) & (SUPPORTED - OLD_SUBSET))
         cov["closure_programs"] += closure_prog
+        array_prog = bool(used_instrs(prog) & {"AllocArray", "GetArrayElem", "SetArrayElem"}) or \
+            any(ext_code(n)[0] >= 200 and ext_code(n)[0] != 255 for n in prog["ext"])
+        sched_prog = "_mimium_schedule_at" in prog["ext"]
+        cov["array_programs"] += array_prog
+        cov["sched_programs"] += sched_prog
         out_model = outside_subset(prog)
         if out_model:
             cov["outside_model"] += 1
@@ -935,6 +998,11 @@ def run_part(ck, quick=True):
         elif isinstance(c, tuple):
             if c[1].endswith("fuel"):
                 cov["out_of_fuel"] += 1
+            if c[1].startswith("dsp:task-due@"):
+                # main and the samples before the first scheduled task is due agree (the model has no task queue)
+                cov["sched_agrees_until_task_due"] += 1
+                cov["samples_compared"] += int(c[1].split("@")[1])
+            cov["not_compared_by"][c[1].split("@")[0]] = cov["not_compared_by"].get(c[1].split("@")[0], 0) + 1
         else:
             report("bytecode VM: model (Bvm/Model.v) and the real VM disagree on the compiler's bytecode: " + c, i, a)
             continue
@@ -955,6 +1023,8 @@ def run_part(ck, quick=True):
             cov["accepted_shipped"] += shipped
             cov["verifier_covers_functions"] += len(prog["funs"])
             cov["accepted_closure_programs"] += closure_prog
+            cov["accepted_array_programs"] += array_prog
+            cov["accepted_sched_programs"] += sched_prog
             bound, stop = verdict_fields(a.get("detail"))
             # the theorem, end to end: the extracted instrumented semantics on bytecode the extracted verifier accepts stops
             # only with a fault of the dynamic class (C03_bvm_closures_verified_safe_partial)
@@ -964,19 +1034,20 @@ def run_part(ck, quick=True):
                 continue
             model_outs = [o for o in a.get("samples", []) + [a.get("main")] if o]
             mfault = next((o for o in model_outs if o["kind"] in ("fault", "unsupported")), None)
-            if stop in ("F DynSignature", "F DynReentry", "F DynCellWidth"):
+            if stop in ("F DynSignature", "F DynReentry", "F DynCellWidth", "F DynElemWidth"):
                 # checks only the instrumentation makes, about facts the COMPILER is responsible for (an indirect callee takes
                 # the words the call site passes and returns the words it expects, a closure is not entered while its own state
-                # storage is in use, a cell is as wide as the upindexes entry says): never seen on the unchanged compiler
+                # storage is in use, a cell is as wide as the upindexes entry says, the array an element is read from / stored
+                # into has the element width of the type the compiler had in hand): never seen on the unchanged compiler
                 report("bytecode VM: bytecode the compiler emitted stops the instrumented semantics with %s (an indirect call / "
-                       "upvalue that does not fit its site): the real VM goes on with the wrong words" % stop[2:], i, a)
+                       "upvalue / array element that does not fit its site): the real VM goes on with the wrong words" % stop[2:], i, a)
                 continue
             if stop not in (None, "-"):
                 # a dynamic check fired: a stale handle (C12's subject) or a write through an open upvalue
                 cov["accepted_dynamic_stop"][stop] = cov["accepted_dynamic_stop"].get(stop, 0) + 1
                 if mfault and not (mfault["kind"] == "fault" and mfault["what"].startswith("Dyn")):
                     # allowed only after a strict-only stop (then the two semantics may part, C03_bvm_strict_agrees)
-                    if stop not in ("F DynSignature", "F DynReentry", "F DynOpenWrite", "F DynCellWidth"):
+                    if stop not in ("F DynSignature", "F DynReentry", "F DynOpenWrite", "F DynCellWidth", "F DynElemWidth"):
                         report("bytecode VM: the transcription faults (%s) on accepted bytecode although the instrumented semantics "
                                "stopped with '%s'" % (mfault.get("what"), stop), i, a)
                 continue
@@ -998,7 +1069,15 @@ def run_part(ck, quick=True):
             else:
                 cov["without_fuel_bound"] += 1
             continue
-        cls = rejection_class(prog, a.get("detail", "")) or unit_operand_class(prog, a.get("detail", ""))
+        cls = rejection_class(prog, a.get("detail", "")) or unit_operand_class(prog, a.get("detail", "")) \
+            or ctor_pattern_class(prog, a.get("detail", ""))
+        if cls == KNOWN_CLASS_CTOR and "T8" in known:
+            cov["rejected_known_class_ctor_pattern"] += 1
+            if rq["kind"].startswith("corpus:finding"):
+                cov["witnesses_reproduced"] += 1
+            ck.known(known["T8"], "bytecode verifier: %s binds the payload of a constructor pattern on a number (registers never "
+                     "written): %s" % (rq["kind"], rq["src"].replace("\n", " ")[:120]))
+            continue
         if cls == KNOWN_CLASS_UNIT:
             cov["rejected_known_class_unit_operand"] += 1
             if rq["kind"].startswith("corpus:finding"):
